@@ -9,7 +9,7 @@ DST = "/verif/refactorings"
 PROPS = subprocess.run(["/venv/bin/python", "-c", "import sys; sys.path.insert(0,'/verif'); from pmcsa import registry; print(' '.join(sorted(registry.CLAIMED)))"], capture_output=True, text=True).stdout.split()
 def harvest():
     # round 1: /tmp/wt-out/refac/R0x/rN -> R0xrN ; round 2: /tmp/wt-out/refac2/R0x/rN -> S0xrN
-    for src, pre in ((SRC, "R"), (SRC + "2", "S"), (SRC + "3", "T"), (SRC + "4", "U"), (SRC + "5", "W"), (SRC + "6", "X")):
+    for src, pre in ((SRC, "R"), (SRC + "2", "S"), (SRC + "3", "T"), (SRC + "4", "U"), (SRC + "5", "W"), (SRC + "6", "X"), (SRC + "7", "Y")):
         if not os.path.isdir(src): continue
         for w in sorted(os.listdir(src)):
           for r in sorted(os.listdir(os.path.join(src, w))):
